@@ -11,8 +11,12 @@ import (
 	"strings"
 	"sync/atomic"
 
+	"github.com/php-any/origami/data"
+	"github.com/php-any/origami/node"
 	"github.com/php-any/origami/parser"
 	"github.com/php-any/origami/runtime"
+	"github.com/php-any/origami/std"
+	"github.com/php-any/origami/std/php"
 	"github.com/php-any/origami/utils/vshim"
 
 	"verif/engine/runner"
@@ -70,6 +74,10 @@ type kase struct {
 	Hex  string `json:"hex"`  // the exact bytes
 	Run  bool   `json:"run"`  // family (e): run the program if accepted
 	Note string `json:"note,omitempty"`
+	// family (g): the source is a complete program by construction; Alt is the same operand at the
+	// neutral site (parsed once). Only used to name the root cause of an accept-then-crash.
+	Alt     string `json:"alt,omitempty"`
+	AltKind string `json:"alt_kind,omitempty"` // what carries the operand body (names the finding when the operand itself is at fault)
 }
 
 func mkCase(fam string, mode int, src string, run bool, note string) kase {
@@ -103,9 +111,50 @@ func rmode(m int) runner.Mode {
 var nilClass = regexp.MustCompile(`nil-pointer-dereference|interface-is-nil|interface-conversion:-interface-is-nil`)
 
 // check runs one input and applies the oracle.
-func check(src string, mode int, run bool) verdict {
+func check(src string, mode int, run bool) verdict { return checkAlt(src, mode, run, "") }
+
+// checkAlt: alt != "" marks a source that is complete by construction (family g). Such a program
+// is run straight away; only if that does not end in output / a script-level error / exit is the
+// full verdict path (parse-only first, hang attribution, ...) taken.
+func checkAlt(src string, mode int, run bool, altKind string) verdict {
+	alt, kind := "", ""
+	if i := strings.IndexByte(altKind, 0); i >= 0 {
+		kind, alt = altKind[:i], altKind[i+1:]
+	}
 	n := len(src)
 	b := budget(n)
+	if alt != "" {
+		r := runStrict(src, mode, b+runFuel)
+		switch {
+		case r.Kind == "ok" || r.Kind == "throw" || r.Kind == "exit" || r.Kind == "control":
+			return verdict{Outcome: "run:" + r.Kind}
+		case r.Kind == "panic" && !r.PanicInParse:
+			v := verdict{Outcome: "run:other-panic", Detail: r.PanicKey}
+			if nilClass.MatchString(strings.TrimPrefix(r.PanicKey, "panic:")) {
+				// Nothing is missing in the text, so the key names where the nil comes from, not which
+				// node meets it: (1) the same operand parsed once at the neutral site `echo E;` crashes
+				// too: the operand form itself is turned into nil (one key per carrier kind);
+				// (2) the neutral twin runs to completion: the only difference is that the operand
+				// was parsed again after a speculative pass; (3) anything else: the crashing frame.
+				v.Outcome = "run:nil-crash"
+				v.Clause = "accepted-is-complete"
+				v.Key = "accept-then-crash:complete-source@" + frameOf(r.PanicKey)
+				v.Detail = r.PanicMsg + " in " + frameOf(r.PanicKey)
+				a := runStrict(alt, mode, b+runFuel)
+				switch {
+				case a.Kind == "panic" && !a.PanicInParse && nilClass.MatchString(a.PanicKey):
+					v.Key = "accept-then-crash:complete-operand:" + kind
+					v.Detail += "; the operand alone (`echo E;`) crashes the same way"
+				case a.Kind == "ok":
+					v.Key = "accept-then-crash:operand-parsed-again"
+					v.Detail += "; the same operand at the neutral site `echo E;` runs clean"
+				}
+			}
+			return v
+		}
+		// rejected, out of fuel or a crash while parsing: judged like any other input (parse only)
+		run = false
+	}
 	var res runner.Result
 	if run {
 		// family (e): parse in the environment the program will run in (std library loaded)
@@ -204,6 +253,77 @@ func check(src string, mode int, run bool) verdict {
 		v.Detail = r2.PanicMsg
 	}
 	return v
+}
+
+// runStrict runs a program the way the command line does: the first uncaught throwable ends the
+// script (the real VM prints it and exits; engine/runner only records it and lets the evaluation
+// continue with a nil value, which is fine for outcomes but would make a later nil dereference look
+// like a crash of an accepted program).
+type strictStop struct{}
+
+func runStrict(src string, mode int, fuel int64) (res runner.Result) {
+	thrown, parsing := false, true
+	res = runner.Guard(func() {
+		saved := data.WriteOutput
+		data.WriteOutput = func(string) {}
+		vshim.CatchExit = true
+		defer func() {
+			vshim.SetFuel(0)
+			vshim.CatchExit = false
+			if data.FlushAllBuffersFn != nil {
+				func() {
+					defer func() { recover() }()
+					data.FlushAllBuffersFn()
+				}()
+			}
+			data.WriteOutput = saved
+		}()
+		p := parser.NewParser()
+		vm := runtime.NewVM(p)
+		std.Load(vm)
+		php.Load(vm)
+		vm.SetThrowControl(func(acl data.Control) {
+			thrown = true
+			panic(strictStop{})
+		})
+		var prog *node.Program
+		var acl data.Control
+		if mode == 1 {
+			fn := filepath.Join(scratchDir(), fmt.Sprintf("s%d.php", tmpSeq.Add(1)))
+			if err := os.WriteFile(fn, []byte(src), 0o644); err != nil {
+				panic(err)
+			}
+			defer os.Remove(fn)
+			vshim.SetFuel(fuel)
+			prog, acl = p.ParseFile(fn)
+		} else {
+			vshim.SetFuel(fuel)
+			prog, acl = p.ParseString(src, "t.zy")
+		}
+		if acl != nil {
+			panic(acl) // Guard: kind "control"; told apart by `parsing`
+		}
+		parsing = false
+		if prog == nil {
+			return
+		}
+		ctx := vm.CreateContext(p.GetVariables())
+		if rv, ok := vm.(*runtime.VM); ok {
+			rv.RegisterGlobalContext(p.GetVariables(), ctx)
+		}
+		if _, acl = prog.GetValue(ctx); acl != nil {
+			thrown = true
+		}
+	})
+	switch {
+	case thrown:
+		res.Kind = "throw"
+	case parsing && res.Kind == "control":
+		res.Kind = "parse"
+	case parsing && res.Kind == "panic":
+		res.PanicInParse = true
+	}
+	return
 }
 
 func frameOf(panicKey string) string {
